@@ -60,11 +60,18 @@ Proof.
     + rewrite RN. reflexivity.
   - (* EExpress *)
     unfold spec_step. destruct (is_nil nm && is_none dig) eqn:Hne.
-    + unfold express. rewrite Hne. simpl. exists sp. split; [reflexivity|]. constructor; auto.
+    + unfold express, express_with. rewrite Hne. simpl. exists sp. split; [reflexivity|]. constructor; auto.
     + destruct (express_pinv s (sp_pending sp) nm cbp dig life RP Hne) as (s' & Hex & I' & A & B & C & D & E).
       rewrite Hex. cbn [fst snd has_panic existsb orb]. rewrite RI. unfold obs_is. rewrite Nat.eqb_refl.
       eexists. split; [reflexivity|]. constructor; cbn [sp_pending sp_handlers sp_now sp_npid sp_inc]; try congruence.
       all: try (rewrite C; exact RF). all: try (rewrite ?RN; exact I').
+  - (* EExpressFail *)
+    unfold spec_step. destruct (is_nil nm && is_none dig) eqn:Hne.
+    + unfold express_with. rewrite Hne. simpl. exists sp. split; [reflexivity|]. constructor; auto.
+    + destruct (express_with_pinv false s (sp_pending sp) nm cbp dig life RP Hne) as (s' & Hex & I' & A & B & C & D & E).
+      rewrite Hex. cbn [fst snd has_panic existsb orb negb]. unfold obs_is. rewrite N.eqb_refl.
+      eexists. split; [reflexivity|]. constructor; cbn [sp_pending sp_handlers sp_now sp_npid sp_inc]; try congruence.
+      all: try (rewrite C; exact RF). all: try (rewrite ?RN, ?RI; exact I').
   - (* EData *)
     destruct (data_pinv s (sp_pending sp) dn dd RP) as (s' & o & P' & Hd & Hc & Hp & Hf & I' & A & B & C & D & E).
     rewrite Hd. cbn [fst snd]. unfold spec_step. rewrite Hp, Hc, Hf.
